@@ -575,7 +575,15 @@ func (m *Machine) place(t Expr) (get func() Value, set func(Value), s signal) {
 		if i < 0 || i >= n {
 			return nil, nil, fatal("IndexOutOfBounds", "index")
 		}
-		return func() Value { return l.E[i] }, func(v Value) { l.E[i] = v }, signal{}
+		// The right-hand side runs between resolving the place and storing into it. If it changes the
+		// length of the list (pop / push on the same list), what the store means is not something the
+		// source-level semantics of C01 spell out: such a program is dropped, not judged.
+		live := func() {
+			if int64(len(l.E)) != n {
+				panic(discard{})
+			}
+		}
+		return func() Value { live(); return l.E[i] }, func(v Value) { live(); l.E[i] = v }, signal{}
 	case Member:
 		base, s := m.expr(t.X)
 		if s.k != sNone {
